@@ -71,6 +71,9 @@ CHECKS.update({
  "C53": l1("exploration", "§3 C53",
    "deterministic simulation: counting TapExec above every node of real optimizer-built plans under seeded schedules/configurations (incl. spilling); oracle: output_rows metric == rows forwarded for every fully consumed node",
    "The whole SQL corpus under random configurations and schedules; a transparent counting node above every operator; after complete consumption every operator all of whose partition streams reached end-of-stream must report output_rows equal to what its tap forwarded. Spill row metrics are not checked."),
+ "C25": l1("exploration", "§3 C25",
+   "deterministic simulation of the write path against a simulated object store: seeded request/part latencies (out-of-order multipart completion), seeded task schedules, seeded iteration order of the hive demuxer; oracle: reported count and read-back multiset equal the written rows",
+   "COPY TO / INSERT INTO through the real sinks for Parquet, CSV, NDJSON and Arrow, single file, directory and hive-partitioned targets with values that need escaping, soft_max_rows_per_output_file 1/3/unlimited, 1-4 parallel files and partitions. Immediately after the statement returns the count must equal the rows written and a fresh listing table with the written schema must read back exactly the written multiset. A claim about completion, assembly and path encoding under schedules and storage latency, on sampled data shapes."),
 })
 
 NA = {
@@ -110,7 +113,7 @@ NA = {
  "C51": "pure string functions",
  "C52": "pure string functions",
 }
-PLANNED = ["C25"]
+PLANNED = []
 
 def main():
     props = [json.loads(l)["id"] for l in open(os.path.join(ROOT, "properties.jsonl"))]
